@@ -144,13 +144,26 @@ protected:
 
             static constexpr size_t linear_search_threshold = 8 * 64 / sizeof(Segment);
             if constexpr (EpsilonRecursive <= linear_search_threshold) {
+#ifdef PGM_INDEX_VERIF
+                auto verif_lo = lo;
+#endif
                 for (; std::next(lo)->key <= key; ++lo)
                     continue;
                 it = lo;
+#ifdef PGM_INDEX_VERIF
+                if (internal::verif::on_route)
+                    internal::verif::on_route(l, verif_lo - segments.begin(), verif_lo - segments.begin(),
+                                              std::next(lo) - segments.begin());
+#endif
             } else {
                 auto level_size = levels_offsets[l + 1] - levels_offsets[l] - 1;
                 auto hi = level_begin + PGM_ADD_EPS(pos, EpsilonRecursive, level_size);
                 it = std::prev(std::upper_bound(lo, hi, key));
+#ifdef PGM_INDEX_VERIF
+                if (internal::verif::on_route)
+                    internal::verif::on_route(l, lo - segments.begin(), lo - segments.begin(),
+                                              hi - segments.begin() - 1);
+#endif
             }
         }
         return it;
